@@ -468,7 +468,7 @@ reg(C17("C17"))
 
 
 # ---- C11 -----------------------------------------------------------------------------------------
-EMPH_ALPHA = [b"*", b"_", b"a", b" ", b".", "é".encode(), "“".encode(), " ".encode()]
+EMPH_ALPHA = [b"*", b"_", b"a", b" ", b".", "é".encode(), "“".encode(), " ".encode(), "Р".encode(), "不".encode(), "上".encode(), "三".encode(), "\u2003".encode(), "\u3000".encode(), "¡".encode()]
 
 
 def emph_strings(seed, tier):
@@ -554,7 +554,14 @@ def label_docs(seed, n):
         expect = norm_label(lab) == norm_label(use)
         place = rng.randrange(4)
         d = "[%s]: /u\n" % lab
-        u = "[%s]\n" % use
+        form = rng.randrange(4)
+        um = ("[%s]" if form < 2 else "[%s][]" if form == 2 else "[zz9][%s]") % use
+        uc = rng.randrange(4)
+        if uc >= 2:
+            # the use inside a container, its label possibly continued on prefixed lines
+            first, cont = ("> ", "> ") if uc == 2 else ("- ", "  ")
+            um = first + um.replace("\n", "\n" + cont)
+        u = um + "\n"
         if place == 0:
             doc = d + "\n" + u
         elif place == 1:
@@ -636,7 +643,10 @@ class C14(Check):
             var.append((d.replace(b"\n", b"\r"), "4"))
             if d and d[-1:] != b"\n":
                 var.append((d + b"\n", "5"))
-        jc = [(d, "") for d in docs(seed, tier, quick=2500, thorough=100000, bad=0.0)]
+        jc = [(d, "") for d in docs(seed, tier, quick=2500, thorough=100000, bad=0.0)] + [(d, "") for d in gen.final_newline_templates()]
+        for d in gen.final_newline_templates():
+            var.append((d, "3"))
+            var.append((d + b"\n", "5"))
         # link labels around the 999-character limit with line breaks inside (a CRLF counts as two): found by the proof
         # attempt of the CRLF clause (EolCRLF.crlf_unrestricted_refuted)
         lim = []
@@ -664,6 +674,13 @@ class C16(Check):
 
     def jobs(self, seed, tier):
         cases = [(d, "") for d in docs(seed, tier, quick=3000, thorough=150000)]
+        # labels with NUL bytes continued over lines (block-parse time reads raw padded NULs; a Source re-parsed alone has U+FFFD)
+        for pre in (b"", b"> ", b"- "):
+            for a in (b"[a\x00", b"[\x00", b"[a", b"[a\x00\x00"):
+                for cont in (b"\x00b]: /url", b"b\x00]: /url", b"\x00]: /url", b"\x00\x00b]: /u \"t\""):
+                    c2 = (b"> " if pre == b"> " else b"  " if pre else b"")
+                    cases.append((pre + a + b"\n" + c2 + cont + b"\n", ""))
+                    cases.append((pre + a + b"\n" + c2 + cont + b"\n\n" + pre + a[:1] + a[1:] + b" " + cont.split(b"]")[0] + b"]\n", ""))
         return [Job("documents", cases, corr=two_sided("full", "full", proj_kindspans, "(kind, span) trees"), judge_mode="judge:C16")]
 
     def extra_coverage(self, st):
@@ -847,6 +864,15 @@ class C15(Check):
     def jobs(self, seed, tier):
         lines = [(l, "") for l in recog_lines(seed, tier)]
         uris = [(s, "") for s in strings_rand(seed ^ 1, URI_ALPHA, 4 if tier != "thorough" else 5, size(tier, 3000, 200000))]
+        # every code point of the Basic Multilingual Plane outside ASCII (surrogates excluded), alone and after a path: a rune
+        # must never be judged by one of its bytes
+        step = 1 if tier == "thorough" else 7
+        for cp in range(0x80 + (seed % step), 0x10000, step):
+            if 0xD800 <= cp < 0xE000:
+                continue
+            uris.append((("/a" + chr(cp)).encode("utf-8"), ""))
+        for cp in (0x2026, 0x0421, 0x042F, 0x2021, 0x0123, 0x0420, 0x4E0D, 0x4E0A, 0x4E09, 0x1F600, 0x10021, 0x1002F):
+            uris.append((("/wiki/" + chr(cp) + "b").encode("utf-8"), ""))
         mails = [(s, "") for s in strings_rand(seed ^ 2, EMAIL_ALPHA, 4 if tier != "thorough" else 5, size(tier, 3000, 200000))]
 
         def class_corr(cases):
@@ -951,8 +977,11 @@ class C06(Check):
         docs_ = docgen.documents(seed, size(tier, 2500, 100000), style="any")
         cases = [(md, html.hex()) for md, html in docs_]
         hcases = [(md, "0") for md, _ in docs_]
+        # emphasis nests: the denotation of a run-delimited nest is what the spec's delimiter procedure says (independent transcription, judge:C11)
+        em = [(x, "0") for x in emph_strings(seed, tier)]
         return [Job("serialised abstract documents", hcases, corr=two_sided("html", "html", ident, "HTML (default configuration)")),
-                Job("denotation", cases, judge_mode="judge:C06", shrinkable=False, mutate=lambda rng, c: c)]
+                Job("denotation", cases, judge_mode="judge:C06", shrinkable=False, mutate=lambda rng, c: c),
+                Job("emphasis nests against the spec procedure", em, judge_mode="judge:C11", nontrivial=lambda c: b"*" in c[0] or b"_" in c[0])]
 
     def extra_coverage(self, st):
         return {"explanation": "denotation oracle on the implementation plus model/implementation HTML correspondence on serialised abstract documents"}
